@@ -38,58 +38,6 @@ Proof.
   - destruct sp; [discriminate|]. inversion H; reflexivity.
 Qed.
 
-Section Tail.
-  Variables B1 B2 : list tx.
-
-  (* ---------------------------------------------------------------- generated adjustments, the same in both runs *)
-  Lemma injected_sim inj : Forall (fun x => is_sfla (t_act x) = true) inj ->
-    forall D1 D2 st1 st2 aft1 aft2 dsi b1 st1',
-    Forall2 row_sim D2 D1 -> srel st1 st2 ->
-    run_injected exact (D1 ++ B1) st1 inj aft1 = (dsi, b1, st1', None) ->
-    exists D1' D2' st2', run_injected exact (D2 ++ B2) st2 inj aft2 = (dsi, D2' ++ B2, st2', None)
-       /\ b1 = D1' ++ B1 /\ Forall2 row_sim D2' D1' /\ srel st1' st2'.
-  Proof.
-    induction 1 as [|t inj Ht HF IH]; intros D1 D2 st1 st2 aft1 aft2 dsi b1 st1' HD HR H; cbn [run_injected] in *.
-    - inversion H; subst. exists D1, D2, st2. auto.
-    - rewrite (delta_for_tx_nonsell (D2 ++ B2) (D1 ++ B1) t (inj ++ aft2) (inj ++ aft1) st2 st1 HR (sfla_not_sell _ Ht)).
-      destruct (delta_for_tx exact (D1 ++ B1) t (inj ++ aft1) st1) as [[d i]| |]; try discriminate.
-      destruct (set_latest exact st1 (t_af t) (d_post d)) as [st1a| |] eqn:Es; try discriminate.
-      destruct (set_latest_srel _ _ _ _ _ HR Es) as (st2a & Es2 & HRa). rewrite Es2.
-      destruct (run_injected exact (t :: D1 ++ B1) st1a inj aft1) as [[[ds b] s'] o'] eqn:Er.
-      inversion H; subst. clear H.
-      assert (HD' : Forall2 row_sim (t :: D2) (t :: D1)) by (constructor; [apply row_sim_refl | exact HD]).
-      destruct (IH (t :: D1) (t :: D2) st1a st2a aft1 aft2 ds b1 st1' HD' HRa Er) as (D1' & D2' & st2' & E & Eb & HD2 & HR2).
-      cbn [app] in E. rewrite E. exists D1', D2', st2'. auto.
-  Qed.
-
-  (* ---------------------------------------------------------------- the later rows *)
-  Lemma later_sim T : forall D1 D2 st1 st2 dsT,
-    Forall2 row_sim D2 D1 -> srel st1 st2 -> Forall spec_nz T ->
-    run_loop exact (D1 ++ B1) st1 T = (dsT, None) -> Forall (wcond B1 B2) dsT ->
-    run_loop exact (D2 ++ B2) st2 T = (dsT, None).
-  Proof.
-    induction T as [|t T IH]; intros D1 D2 st1 st2 dsT HD HR Hnz H HW; cbn [run_loop] in *.
-    - exact H.
-    - apply Forall_cons_iff in Hnz as [Hnt Hnz].
-      destruct (delta_for_tx exact (D1 ++ B1) t T st1) as [[d inj]| |] eqn:Ed; try discriminate.
-      destruct (set_latest exact st1 (t_af t) (d_post d)) as [st1a| |] eqn:Es; try discriminate.
-      destruct (run_injected exact (t :: D1 ++ B1) st1a inj T) as [[[dsi b1] st1b] o] eqn:Ei.
-      destruct o; [discriminate|].
-      destruct (run_loop exact b1 st1b T) as [ds o'] eqn:Er. inversion H; subst dsT o'. clear H.
-      apply Forall_cons_iff in HW as [[HW1 HW2] HW]. apply Forall_app in HW as [HWi HWr].
-      pose proof (delta_tx_eq _ _ _ _ _ _ _ Ed) as Etx. unfold d_sd in HW1, HW2. rewrite Etx in HW1, HW2.
-      rewrite (delta_for_tx_sim (D2 ++ B2) (D1 ++ B1) t T T st2 st1 d inj HR Hnt Ed (FwdEq_refl _ _)).
-      + destruct (set_latest_srel _ _ _ _ _ HR Es) as (st2a & Es2 & HRa). rewrite Es2.
-        assert (HD' : Forall2 row_sim (t :: D2) (t :: D1)) by (constructor; [apply row_sim_refl | exact HD]).
-        destruct (injected_sim inj (C01Refine.delta_for_tx_inj _ _ _ _ _ _ _ Ed) (t :: D1) (t :: D2) st1a st2a T T
-                    dsi b1 st1b HD' HRa Ei) as (D1' & D2' & st2b & E & Eb & HD2 & HR2).
-        cbn [app] in E. rewrite E. subst b1.
-        rewrite (IH D1' D2' st1b st2b ds HD2 HR2 Hnz Er HWr). reflexivity.
-      + intros Hs dflt adj s. destruct (HW1 Hs) as [Ho1 Ho2]. apply bwd_same; assumption.
-      + intros Hs Hl dflt adj s s1 Hb. eapply bwd_prefix; [exact HD | exact (HW2 Hs Hl) | exact Hb].
-  Qed.
-End Tail.
-
 (* ---------------------------------------------------------------- shapes of a run *)
 Lemma run_injected_shape inj : Forall (fun x => is_sfla (t_act x) = true) inj ->
   forall bef st aft dsi b st',
@@ -126,6 +74,70 @@ Proof.
     rewrite (IH _ _ _ _ _ _ Er), E3. cbn [map rev]. rewrite map_app, rev_app_distr, E1.
     rewrite (delta_tx_eq _ _ _ _ _ _ _ Ed). rewrite <- !app_assoc. reflexivity.
 Qed.
+
+Definition gooddelta (regof : N -> bool) (d : delta) : Prop := goodtx regof (d_tx d).
+
+Section Tail.
+  Variables B1 B2 : list tx.
+  Variable regof : N -> bool.
+
+  (* ---------------------------------------------------------------- generated adjustments, the same in both runs *)
+  Lemma injected_sim inj : Forall (fun x => is_sfla (t_act x) = true /\ goodtx regof x) inj ->
+    forall D1 D2 st1 st2 aft1 aft2 dsi b1 st1',
+    Forall2 row_sim D2 D1 -> srel regof st1 st2 ->
+    run_injected exact (D1 ++ B1) st1 inj aft1 = (dsi, b1, st1', None) ->
+    exists D1' D2' st2', run_injected exact (D2 ++ B2) st2 inj aft2 = (dsi, D2' ++ B2, st2', None)
+       /\ b1 = D1' ++ B1 /\ Forall2 row_sim D2' D1' /\ srel regof st1' st2'.
+  Proof.
+    induction 1 as [|t inj [Ht Hgt] HF IH]; intros D1 D2 st1 st2 aft1 aft2 dsi b1 st1' HD HR H; cbn [run_injected] in *.
+    - inversion H; subst. exists D1, D2, st2. auto.
+    - rewrite (delta_for_tx_nonsell regof (D2 ++ B2) (D1 ++ B1) t (inj ++ aft2) (inj ++ aft1) st2 st1 HR Hgt (sfla_not_sell _ Ht)).
+      destruct (delta_for_tx exact (D1 ++ B1) t (inj ++ aft1) st1) as [[d i]| |]; try discriminate.
+      destruct (set_latest exact st1 (t_af t) (d_post d)) as [st1a| |] eqn:Es; try discriminate.
+      destruct (set_latest_srel _ _ _ _ _ _ HR Es) as (st2a & Es2 & HRa). rewrite Es2.
+      destruct (run_injected exact (t :: D1 ++ B1) st1a inj aft1) as [[[ds b] s'] o'] eqn:Er.
+      inversion H; subst. clear H.
+      assert (HD' : Forall2 row_sim (t :: D2) (t :: D1)) by (constructor; [apply row_sim_refl | exact HD]).
+      destruct (IH (t :: D1) (t :: D2) st1a st2a aft1 aft2 ds b1 st1' HD' HRa Er) as (D1' & D2' & st2' & E & Eb & HD2 & HR2).
+      cbn [app] in E. rewrite E. exists D1', D2', st2'. auto.
+  Qed.
+
+  (* ---------------------------------------------------------------- the later rows *)
+  Lemma later_sim T : forall D1 D2 st1 st2 dsT,
+    Forall2 row_sim D2 D1 -> srel regof st1 st2 -> Forall spec_nz T ->
+    run_loop exact (D1 ++ B1) st1 T = (dsT, None) -> Forall (wcond B1 B2) dsT ->
+    Forall (gooddelta regof) dsT ->
+    run_loop exact (D2 ++ B2) st2 T = (dsT, None).
+  Proof.
+    induction T as [|t T IH]; intros D1 D2 st1 st2 dsT HD HR Hnz H HW HG; cbn [run_loop] in *.
+    - exact H.
+    - apply Forall_cons_iff in Hnz as [Hnt Hnz].
+      destruct (delta_for_tx exact (D1 ++ B1) t T st1) as [[d inj]| |] eqn:Ed; try discriminate.
+      destruct (set_latest exact st1 (t_af t) (d_post d)) as [st1a| |] eqn:Es; try discriminate.
+      destruct (run_injected exact (t :: D1 ++ B1) st1a inj T) as [[[dsi b1] st1b] o] eqn:Ei.
+      destruct o; [discriminate|].
+      destruct (run_loop exact b1 st1b T) as [ds o'] eqn:Er. inversion H; subst dsT o'. clear H.
+      apply Forall_cons_iff in HW as [[HW1 HW2] HW]. apply Forall_app in HW as [HWi HWr].
+      apply Forall_cons_iff in HG as [HGd HG]. apply Forall_app in HG as [HGi HGr].
+      pose proof (delta_tx_eq _ _ _ _ _ _ _ Ed) as Etx. unfold d_sd in HW1, HW2. rewrite Etx in HW1, HW2.
+      unfold gooddelta in HGd. rewrite Etx in HGd.
+      pose proof (C01Refine.delta_for_tx_inj _ _ _ _ _ _ _ Ed) as Hsf.
+      assert (Hinj : Forall (fun x => is_sfla (t_act x) = true /\ goodtx regof x) inj).
+      { destruct (run_injected_shape inj Hsf _ _ _ _ _ _ Ei) as (E1 & _ & _). rewrite <- E1 in Hsf |- *.
+        clear -Hsf HGi. induction dsi as [|x r IHr]; cbn [map] in *; constructor.
+        - split; [exact (Forall_inv Hsf) | exact (Forall_inv HGi)].
+        - apply IHr; [exact (Forall_inv_tail HGi) | exact (Forall_inv_tail Hsf)]. }
+      rewrite (delta_for_tx_sim regof (D2 ++ B2) (D1 ++ B1) t T T st2 st1 d inj HR HGd Hnt Ed (FwdEq_refl _ _)).
+      + destruct (set_latest_srel _ _ _ _ _ _ HR Es) as (st2a & Es2 & HRa). rewrite Es2.
+        assert (HD' : Forall2 row_sim (t :: D2) (t :: D1)) by (constructor; [apply row_sim_refl | exact HD]).
+        destruct (injected_sim inj Hinj (t :: D1) (t :: D2) st1a st2a T T
+                    dsi b1 st1b HD' HRa Ei) as (D1' & D2' & st2b & E & Eb & HD2 & HR2).
+        cbn [app] in E. rewrite E. subst b1.
+        rewrite (IH D1' D2' st1b st2b ds HD2 HR2 Hnz Er HWr HGr). reflexivity.
+      + intros Hs dflt adj s. destruct (HW1 Hs) as [Ho1 Ho2]. apply bwd_same; assumption.
+      + intros Hs Hl dflt adj s s1 Hb. eapply bwd_prefix; [exact HD | exact (HW2 Hs Hl) | exact Hb].
+  Qed.
+End Tail.
 
 (* ---------------------------------------------------------------- re-emission *)
 Lemma keep_all_app a b : keep_all (a ++ b) = (x <- keep_all a ;; y <- keep_all b ;; Ok (x ++ y)).
@@ -187,22 +199,23 @@ Definition sell_pos (t : tx) : Prop := match t_act t with Sell sh _ _ _ _ _ => 0
 
 Section Kept.
   Variables B1 B2 T : list tx.
+  Variable regof : N -> bool.
 
   (* the generated adjustments of the full history, as ordinary rows of the re-run *)
-  Lemma explicit_inj inj : Forall (fun x => is_sfla (t_act x) = true) inj ->
+  Lemma explicit_inj inj : Forall (fun x => is_sfla (t_act x) = true /\ goodtx regof x) inj ->
     forall D1 D2 st1 st2 aft1 X dsi b1 st1',
-    Forall2 row_sim D2 D1 -> srel st1 st2 ->
+    Forall2 row_sim D2 D1 -> srel regof st1 st2 ->
     run_injected exact (D1 ++ B1) st1 inj aft1 = (dsi, b1, st1', None) ->
     exists D1' D2' st2', run_part exact (D2 ++ B2) st2 inj X = (dsi, D2' ++ B2, st2', None)
-       /\ b1 = D1' ++ B1 /\ Forall2 row_sim D2' D1' /\ srel st1' st2'.
+       /\ b1 = D1' ++ B1 /\ Forall2 row_sim D2' D1' /\ srel regof st1' st2'.
   Proof.
-    induction 1 as [|t inj Ht HF IH]; intros D1 D2 st1 st2 aft1 X dsi b1 st1' HD HR H;
+    induction 1 as [|t inj [Ht Hgt] HF IH]; intros D1 D2 st1 st2 aft1 X dsi b1 st1' HD HR H;
       cbn [run_injected run_part] in *.
     - inversion H; subst. exists D1, D2, st2. auto.
-    - rewrite (delta_for_tx_nonsell (D2 ++ B2) (D1 ++ B1) t (inj ++ X) (inj ++ aft1) st2 st1 HR (sfla_not_sell _ Ht)).
+    - rewrite (delta_for_tx_nonsell regof (D2 ++ B2) (D1 ++ B1) t (inj ++ X) (inj ++ aft1) st2 st1 HR Hgt (sfla_not_sell _ Ht)).
       destruct (delta_for_tx exact (D1 ++ B1) t (inj ++ aft1) st1) as [[d i]| |] eqn:Ed; try discriminate.
       destruct (set_latest exact st1 (t_af t) (d_post d)) as [st1a| |] eqn:Es; try discriminate.
-      destruct (set_latest_srel _ _ _ _ _ HR Es) as (st2a & Es2 & HRa). rewrite Es2.
+      destruct (set_latest_srel _ _ _ _ _ _ HR Es) as (st2a & Es2 & HRa). rewrite Es2.
       destruct (run_injected exact (t :: D1 ++ B1) st1a inj aft1) as [[[ds b] s'] o'] eqn:Er.
       inversion H; subst. clear H.
       pose proof (delta_for_tx_sfl _ _ _ _ _ _ _ Ed) as [Etx Hs].
@@ -217,15 +230,15 @@ Section Kept.
   Qed.
 
   Lemma kept_sim K : forall D1 D2 st1 st2 dsK b1 st1' K',
-    Forall2 row_sim D2 D1 -> srel st1 st2 -> Forall spec_nz K -> Forall sell_pos K ->
+    Forall2 row_sim D2 D1 -> srel regof st1 st2 -> Forall spec_nz K -> Forall sell_pos K ->
     run_part exact (D1 ++ B1) st1 K T = (dsK, b1, st1', None) ->
-    keep_all dsK = Ok K' -> Forall (wcond B1 B2) dsK ->
+    keep_all dsK = Ok K' -> Forall (wcond B1 B2) dsK -> Forall (gooddelta regof) dsK ->
     exists dsK' D1' D2' st2',
       run_part exact (D2 ++ B2) st2 K' T = (dsK', D2' ++ B2, st2', None)
-      /\ b1 = D1' ++ B1 /\ Forall2 row_sim D2' D1' /\ srel st1' st2'
+      /\ b1 = D1' ++ B1 /\ Forall2 row_sim D2' D1' /\ srel regof st1' st2'
       /\ map d_post dsK' = map d_post dsK /\ map d_gain dsK' = map d_gain dsK.
   Proof.
-    induction K as [|t K IH]; intros D1 D2 st1 st2 dsK b1 st1' K' HD HR Hnz Hsp H Hk HW; cbn [run_part] in H.
+    induction K as [|t K IH]; intros D1 D2 st1 st2 dsK b1 st1' K' HD HR Hnz Hsp H Hk HW HG; cbn [run_part] in H.
     - inversion H; subst. cbn in Hk. inversion Hk; subst K'. cbn [run_part].
       exists [], D1, D2, st2. split; [reflexivity|]. split; [reflexivity|]. split; [exact HD|].
       split; [exact HR|]. split; reflexivity.
@@ -241,14 +254,20 @@ Section Kept.
       destruct (keep_all ds') as [K''| |] eqn:Ek; cbn [bind] in Hk; try discriminate.
       inversion Hk; subst K'. clear Hk.
       apply Forall_cons_iff in HW as [[HW1 HW2] HW]. apply Forall_app in HW as [HWi HWr].
+      apply Forall_cons_iff in HG as [HGd HG]. apply Forall_app in HG as [HGi HGr].
       pose proof (delta_for_tx_sfl _ _ _ _ _ _ _ Ed) as [Etx Hsell].
-      unfold d_sd in HW1, HW2. rewrite Etx in HW1, HW2.
+      unfold d_sd in HW1, HW2. rewrite Etx in HW1, HW2. unfold gooddelta in HGd. rewrite Etx in HGd.
+      assert (Hinj : Forall (fun x => is_sfla (t_act x) = true /\ goodtx regof x) inj).
+      { rewrite <- E1 in Hsf |- *.
+        clear -Hsf HGi. induction dsi as [|x r IHr]; cbn [map] in *; constructor.
+        - split; [exact (Forall_inv Hsf) | exact (Forall_inv HGi)].
+        - apply IHr; [exact (Forall_inv_tail HGi) | exact (Forall_inv_tail Hsf)]. }
       assert (HFw : FwdEq (t_sd t) (inj ++ K'' ++ T) (K ++ T)).
       { intros dflt adj s. apply (fwd_rel_same exact _ _ _ _ (t_sd t)).
         - apply fw_rel_sflas; [exact Hsf | exact (delta_for_tx_inj_sd _ _ _ _ _ _ _ Ed) |].
           apply fw_rel_app. eapply kept_fw; eassumption.
         - unfold window_days. lia. }
-      destruct (set_latest_srel _ _ _ _ _ HR Es) as (st2a & Es2 & HRa).
+      destruct (set_latest_srel _ _ _ _ _ _ HR Es) as (st2a & Es2 & HRa).
       (* the row itself *)
       assert (Hrow : exists d2, delta_for_tx exact (D2 ++ B2) kd (inj ++ K'' ++ T) st2 = Ok (d2, [])
                                 /\ d_post d2 = d_post d /\ d_gain d2 = d_gain d /\ row_sim kd t /\ t_af kd = t_af t).
@@ -259,8 +278,8 @@ Section Kept.
           inversion Ekd; subst kd. clear Ekd. rewrite Etx.
           unfold sell_pos in Hspt. rewrite Ea in Hspt.
           destruct (HW1 Hn) as [Ho1 Ho2].
-          destruct (delta_for_tx_kept (D2 ++ B2) (D1 ++ B1) t (inj ++ K'' ++ T) (K ++ T) st2 st1 d inj info
-                      sh aps com rate crate spec HR Ea Hspt Ed Esfl HFw) as (info' & E' & _).
+          destruct (delta_for_tx_kept regof (D2 ++ B2) (D1 ++ B1) t (inj ++ K'' ++ T) (K ++ T) st2 st1 d inj info
+                      sh aps com rate crate spec HR HGd Ea Hspt Ed Esfl HFw) as (info' & E' & _).
           { intros dflt adj s. apply bwd_same; assumption. }
           eexists. split; [exact E'|]. cbn [d_post d_gain]. repeat split.
           + eexists. reflexivity.
@@ -268,15 +287,15 @@ Section Kept.
         - unfold keep_delta in Ekd. rewrite Esfl, Etx in Ekd. inversion Ekd; subst kd. clear Ekd.
           pose proof (delta_for_tx_noinj _ _ _ _ _ _ _ Ed Esfl) as Hi. clear E1. subst inj.
           exists d. split; [|repeat split; apply row_sim_refl].
-          apply (delta_for_tx_sim (D2 ++ B2) (D1 ++ B1) t ([] ++ K'' ++ T) (K ++ T) st2 st1 d [] HR Hnt Ed HFw).
+          apply (delta_for_tx_sim regof (D2 ++ B2) (D1 ++ B1) t ([] ++ K'' ++ T) (K ++ T) st2 st1 d [] HR HGd Hnt Ed HFw).
           + intros Hs. rewrite Esfl in Hs. contradiction.
           + intros _ Hl dflt adj s s1 Hb. eapply bwd_prefix; [exact HD | exact (HW2 eq_refl Hl) | exact Hb]. }
       destruct Hrow as (d2 & Ed2 & Ep2 & Eg2 & Hsim & Haf2).
       assert (HD' : Forall2 row_sim (kd :: D2) (t :: D1)) by (constructor; assumption).
-      destruct (explicit_inj inj Hsf (t :: D1) (kd :: D2) st1a st2a (K ++ T) (K'' ++ T) dsi bi st1b HD' HRa Ei)
+      destruct (explicit_inj inj Hinj (t :: D1) (kd :: D2) st1a st2a (K ++ T) (K'' ++ T) dsi bi st1b HD' HRa Ei)
         as (D1a & D2a & st2b & Einj & Eb & HDa & HRb).
       subst bi.
-      destruct (IH D1a D2a st1b st2b ds' b1 st1' K'' HDa HRb Hnz Hsp Er Ek HWr)
+      destruct (IH D1a D2a st1b st2b ds' b1 st1' K'' HDa HRb Hnz Hsp Er Ek HWr HGr)
         as (dsK' & D1' & D2' & st2' & Erun & Eb1 & HD2 & HR2 & Epost & Egain).
       exists (d2 :: dsi ++ dsK'), D1', D2', st2'.
       split; [|split; [exact Eb1|split; [exact HD2|split; [exact HR2|split]]]].
@@ -352,15 +371,21 @@ Definition st0 : pstate := {| ps_map := []; ps_all := 0; ps_latest := default_af
    its window.  Then (generated purchases ++ re-emitted rows ++ later rows) is
    accepted, the re-emitted rows report the same balances and gains and the
    later rows are reported EXACTLY as by the full history. *)
-Theorem roundtrip_run like (hs : list hold_row) K T B1 st1 dsK bK stK dsT K' :
+Lemma obs_fst_id st a b : af_id a = af_id b -> fst (obs st a) = fst (obs st b).
+Proof. intros E. unfold obs, latest_for. rewrite E. destruct (alookup (af_id b) (ps_map st)); reflexivity. Qed.
+Lemma held_obs_fst_id hs a b x y : af_id a = af_id b -> fst (held_obs hs a (0, x)) = fst (held_obs hs b (0, y)).
+Proof. intros E. unfold held_obs, find_hold. rewrite E. destruct (find _ hs); reflexivity. Qed.
+
+Theorem roundtrip_run regof like (hs : list hold_row) K T B1 st1 dsK bK stK dsT K' :
   NoDup (map (fun h : hold_row => af_id (fst (fst h))) hs) ->
   Forall (fun h : hold_row => holding_ok (fst (fst h)) (snd (fst h))) hs ->
   ps_all st1 = total_held hs -> lp st1 = ps_all st1 ->
-  (forall af, obs st1 af = held_obs hs af (0, if af_reg af then None else Some 0)) ->
+  (forall af, goodaf regof af -> obs st1 af = held_obs hs af (0, if af_reg af then None else Some 0)) ->
   run_part exact B1 st1 K T = (dsK, bK, stK, None) ->
   run_loop exact bK stK T = (dsT, None) ->
   keep_all dsK = Ok K' ->
   Forall (wcond B1 (rev (map (hold_tx like) hs))) (dsK ++ dsT) ->
+  Forall (gooddelta regof) (dsK ++ dsT) ->
   Forall spec_nz (K ++ T) -> Forall sell_pos K ->
   exists dsG dsK',
     run exact None (map (hold_tx like) hs ++ K' ++ T) = (dsG ++ dsK' ++ dsT, None)
@@ -368,23 +393,29 @@ Theorem roundtrip_run like (hs : list hold_row) K T B1 st1 dsK bK stK dsT K' :
        = map (fun h : hold_row => (s_sh (snd (fst h)), s_acb (snd (fst h)))) hs
     /\ map d_post dsK' = map d_post dsK /\ map d_gain dsK' = map d_gain dsK.
 Proof.
-  intros Hnd HF Htot Hlp Hobs HK HT Hk HW Hnz Hsp.
+  intros Hnd HF Htot Hlp Hobs HK HT Hk HW HGd Hnz Hsp.
   apply Forall_app in HW as [HWk HWt]. apply Forall_app in Hnz as [Hnzk Hnzt].
+  apply Forall_app in HGd as [HGk HGt].
   assert (HF0 : Forall (fun h : hold_row => holding_ok (fst (fst h)) (snd (fst h)) /\ fresh st0 (fst (fst h))) hs).
   { apply Forall_forall. intros x Hx. split; [apply (proj1 (Forall_forall _ _) HF x Hx)|reflexivity]. }
   destruct (buys_part like hs [] st0 (K' ++ T) ltac:(cbn; qc_lra) eq_refl Hnd HF0)
     as (dsG & stG & HG & HobsG & HtotG & HlpG & HcoreG).
   rewrite app_nil_r in HG.
   set (B2 := rev (map (hold_tx like) hs)) in *.
-  assert (HR : srel st1 stG).
-  { split; [|split].
+  assert (Hgood : forall af, goodaf regof af -> obs st1 af = obs stG af).
+  { intros af Hg. rewrite (Hobs af Hg), (HcoreG af). unfold held_obs. destruct (find_hold hs af); reflexivity. }
+  assert (HR : srel regof st1 stG).
+  { split; [|split; [|split]].
     - rewrite HtotG, Htot. cbn [ps_all st0]. ring.
     - rewrite Hlp, HlpG, HtotG, Htot. cbn [ps_all st0]. ring.
-    - intros af. rewrite (Hobs af), (HcoreG af). unfold held_obs. destruct (find_hold hs af); reflexivity. }
-  destruct (kept_sim B1 B2 T K [] [] st1 stG dsK bK stK K' (Forall2_nil _) HR Hnzk Hsp HK Hk HWk)
+    - intros af. set (af' := {| af_id := af_id af; af_reg := regof (af_id af); af_dflt := af_dflt af |}).
+      assert (Hg : goodaf regof af') by reflexivity.
+      rewrite (obs_fst_id st1 af af' eq_refl), (obs_fst_id stG af af' eq_refl), (Hgood af' Hg). reflexivity.
+    - intros af Hg. rewrite (Hgood af Hg). reflexivity. }
+  destruct (kept_sim B1 B2 T regof K [] [] st1 stG dsK bK stK K' (Forall2_nil _) HR Hnzk Hsp HK Hk HWk HGk)
     as (dsK' & D1' & D2' & st2' & Erun & Eb1 & HD2 & HR2 & Epost & Egain).
   cbn [app] in Erun. subst bK.
-  pose proof (later_sim B1 B2 T D1' D2' stK st2' dsT HD2 HR2 Hnzt HT HWt) as ET.
+  pose proof (later_sim B1 B2 regof T D1' D2' stK st2' dsT HD2 HR2 Hnzt HT HWt HGt) as ET.
   exists dsG, dsK'. split; [|split; [exact HobsG|split; assumption]].
   rewrite run_None. fold st0. rewrite run_loop_app, HG, run_loop_app, Erun, ET. reflexivity.
 Qed.
